@@ -164,7 +164,7 @@ CHECKS = {
                 note='3 instances on 2 nodes, loads in {0,30,60}, 4 application shapes, fresh or with programs EXITED by an earlier run'),
     'C20': dict(engine='E2-seq', category='exploration', technique=E2, ref='DESIGN.md section 4, C20',
                 text='every stream of samples up to the depth bound over the alphabet (time steps, key sets changing, counters '
-                     'wrapping together or one at a time, pid changes, unknown instance) is pushed into the real compilers; depth, alignment, period gate, '
+                     'wrapping together or one at a time, pid changes, unknown instance; psutil answers of the real process collector: sample / OSError / dead) is pushed into the real compilers; depth, alignment, period gate, '
                      'value ranges and integrated values are checked after every push against a reference model',
                 note='states merged on an abstract key (lengths, key sets, capped time since the reference sample, order '
                      'relations); the number of CPU cores is constant within a stream'),
